@@ -478,4 +478,28 @@ Proof.
   - exact (proj1 (kept_entry_mixed RK RK_field ex_asm_basis C (Some (/ 2)) 0 1 0 0 0 1
              ltac:(cbn; lia) ltac:(cbn; lia) ltac:(cbn; lia) ltac:(cbn; lia) ltac:(cbn; lia) ltac:(cbn; lia) S2)).
 Qed.
+
+(* a basis of two Cartesian s shells 3 bohr apart meets every hypothesis of the Cartesian theorems; its
+   off-diagonal entries are removed at tol = 1/2 and were below 1/2 * Sa * Sb *)
+Definition ex_cart_basis : list (shell R) := [ex_shell 0; ex_shell 3].
+
+Example asm_cart_example :
+  cart_basis ex_cart_basis /\ basis_wf ex_cart_basis /\ pos_basis ex_cart_basis
+  /\ scr RK (Some (/ 2)) ex_cart_basis 0 1 = true
+  /\ nth 1 (nth 0 (overlap_integral_screened RK ex_cart_basis None (Some (/ 2))) []) 0 = 0
+  /\ Rabs (nth 1 (nth 0 (overlap_integral RK ex_cart_basis None) []) 0)
+     <= / 2 * (AssembledP.ncont RK (ex_shell 0) 0 0 * abs_sum (col 0 [1] [[1]]))
+            * (AssembledP.ncont RK (ex_shell 3) 0 0 * abs_sum (col 0 [1] [[1]])).
+Proof.
+  assert (C : cart_basis ex_cart_basis) by (intros s [<-|[<-|[]]]; cbn; (split; [reflexivity|lia])).
+  assert (W : basis_wf ex_cart_basis) by (intros s [<-|[<-|[]]]; apply wf_shell_default; reflexivity).
+  assert (P : pos_basis ex_cart_basis) by (intros s [<-|[<-|[]]]; apply ex_pos).
+  assert (S : scr RK (Some (/ 2)) ex_cart_basis 0 1 = true) by (rewrite scr_R; exact ex_screened).
+  split; [exact C|]. split; [exact W|]. split; [exact P|]. split; [exact S|]. split.
+  - exact (proj1 (removed_entry_cart RK RK_field ex_cart_basis C (Some (/ 2)) 0 1 0 0 0 0
+             ltac:(cbn; lia) ltac:(cbn; lia) ltac:(cbn; lia) ltac:(cbn; lia) ltac:(cbn; lia) ltac:(cbn; lia) S)).
+  - exact (proj1 (removed_s_bound_assembled_cart ex_cart_basis 0 1 0 0 (/ 2) C W P
+             ltac:(cbn; lia) ltac:(cbn; lia) eq_refl eq_refl eq_refl eq_refl ltac:(cbn; lia) ltac:(cbn; lia)
+             ltac:(lra) S)).
+Qed.
 End RealBound.
